@@ -352,9 +352,9 @@ Lemma construct_head : forall E dir cx u r,
 Proof.
   intros E dir cx u r H. destruct u; cbn [Build.construct ty_bhead] in *;
     try (inversion H; subst; reflexivity); try discriminate H.
-  - destruct (Build.getitem cx (Build.evaluate u)); cbn in H; try discriminate H. inversion H; reflexivity.
-  - destruct (Build.getitem cx (Build.evaluate u1)); cbn in H; try discriminate H.
-    destruct (Build.getitem cx (Build.evaluate u2)); cbn in H; try discriminate H. inversion H; reflexivity.
+  - destruct (Build.getitem E cx (Build.evaluate u)); cbn in H; try discriminate H. inversion H; reflexivity.
+  - destruct (Build.getitem E cx (Build.evaluate u1)); cbn in H; try discriminate H.
+    destruct (Build.getitem E cx (Build.evaluate u2)); cbn in H; try discriminate H. inversion H; reflexivity.
   - destruct (Core.mapM _ ts); cbn in H; try discriminate H. inversion H; reflexivity.
   - destruct (Core.mapM _ _); cbn in H; try discriminate H. inversion H; reflexivity.
   - destruct (E n) as [[cd|]|]; try discriminate H. inversion H; reflexivity.
@@ -619,7 +619,7 @@ Proof. destruct a; destruct b; cbn; intro H; try reflexivity; discriminate. Qed.
    constructor that stands for the routine class the code's dispatch chooses for t, on both sides. *)
 Theorem construct_matches_dispatch : forall E t tau dir cx r,
   heads_agree D E t tau = 0 ->
-  Build.construct E dir cx (Build.unwrap tau) = Core.Ok r ->
+  Build.construct E dir cx (Build.unwrap E tau) = Core.Ok r ->
   exists k, kind_of T (peel t) = Some k /\ routine_bhead r = build_head k
     /\ disp_u D t = DOk (expected_u k) /\ disp_m D t = DOk (expected_m k).
 Proof.
@@ -627,7 +627,7 @@ Proof.
   destruct (supported D t && negb (is_typevar t)) eqn:Hs; cbn [negb] in Ha; [|discriminate].
   apply andb_prop in Hs. destruct Hs as [Hs Htv]. apply negb_true_iff in Htv.
   destruct (kind_of T (peel t)) as [k|] eqn:Hk; [|discriminate].
-  destruct (ty_bhead E (Build.unwrap tau)) as [h|] eqn:Hh; [|discriminate].
+  destruct (ty_bhead E (Build.unwrap E tau)) as [h|] eqn:Hh; [|discriminate].
   destruct (bhead_eqb (build_head k) h) eqn:Hb; [|discriminate]. apply bhead_eqb_eq in Hb.
   rewrite (construct_head _ _ _ _ _ Hc) in Hh. inversion Hh as [Hh'].
   destruct (everywhere_dispatch t t Hs Htv (occurs_here t)) as [k' [Hk' [Hu Hm]]].
